@@ -45,6 +45,11 @@ def make_scratch(repo=None):
         with open(mf, "a") as f:
             f.write("\n" + line)
         shutil.copytree(srcdir, os.path.join(d, dest))
+        # shared specification texts (one text for Kani and Verus)
+        shared = os.path.join(VERIF, "contracts", "shared")
+        if hdir == "boolean" and os.path.isdir(shared):
+            for fn in os.listdir(shared):
+                shutil.copy2(os.path.join(shared, fn), os.path.join(d, dest, fn))
         injected.append(modfile)
     return d
 
@@ -87,10 +92,12 @@ def parse_kani_output(text):
         m = re.match(r"Verification Time: ([0-9.]+)s", line)
         if m:
             r["time_s"] = float(m.group(1))
+        if "CBMC failed" in line or "CBMC timed out" in line or "TIMEOUT" in line or "out of memory" in line.lower():
+            r["tool_error"] = line.strip()
         if "VERIFICATION:- SUCCESSFUL" in line:
             r["status"] = "ok"
         elif "VERIFICATION:- FAILED" in line:
-            r["status"] = "fail"
+            r["status"] = "error" if (r.get("tool_error") or not r["failed_checks"]) else "fail"
         m = re.match(r"\s*- Stub: (.*)", line)
         if m:
             r["stubs"].append(m.group(1).strip())
